@@ -136,7 +136,12 @@ let run (_prefix : string) (cfg : config) (parts : string list) (_src : string)
        | Some t -> [ ("in_wf", JB (wf_all t)); ("in_optchain", JB (has_optchain t)) ]
        | None -> [])
       @ ns "in" ast_in @ ns "out" ast_out
-      @ [ ("prologue_ns", JI (List.fold_left (fun a s -> a + int_of_nat (ns_count s)) 0 cfg.c_prefix_stmts)) ]) in
+      @ [ ("prologue_ns", JI (List.fold_left (fun a s -> a + int_of_nat (ns_count s)) 0 cfg.c_prefix_stmts)) ]
+      (* the measure of C05_rewrite_only_configured_names: members on the namespace whose name is not configured *)
+      @ (match ast_out with Some t -> [ ("out_badnames", JI (int_of_nat (badname (configured cfg) t)));
+                                        ("out_ns_members", JI (List.length (ns_members t))) ] | None -> [])
+      @ (match ast_in with Some t -> [ ("in_ns_members", JI (List.length (ns_members t))) ] | None -> [])
+      @ [ ("prologue_badnames", JI (int_of_nat (badname_list (configured cfg) cfg.c_prefix_stmts))) ]) in
   let tie_part =
     on parts "semtie" (fun () ->
       match ast_in, ast_out with
